@@ -106,14 +106,19 @@ WaitingOf(S, ids) == SelectSeq(ids, LAMBDA i : Cu(S, i).srv = 0)
 HasDetector(S) == S.cfg.detector = "digraph"
 
 \* action_at_blockage: edges from the blocked customer's server to every server of the destination
+\* the digraph's vertices are the names of Server objects; a customer without one (infinite-server node, slotted
+\* node) is str(False) / str(True), which the projection writes <<0, 0>>; a removed server keeps its name
+DgVertex(n, srv) == IF srv > 0 THEN <<n, srv>> ELSE IF srv <= 0 - 100 THEN <<n, 0 - srv - 100>> ELSE <<0, 0>>
+
 DgBlock(S, n, sid, d) ==
     IF ~HasDetector(S) THEN S
-    ELSE [S EXCEPT !.dg = @ \cup {<<n, sid, d, Nd(S, d).srv[a].id>> : a \in DOMAIN Nd(S, d).srv}]
+    ELSE LET v == DgVertex(n, sid)
+         IN [S EXCEPT !.dg = @ \cup {<<v[1], v[2], d, Nd(S, d).srv[a].id>> : a \in DOMAIN Nd(S, d).srv}]
 
 \* action_at_attach_server: customers still blocked to this node point to the newly attached server again
 DgAttach(S, n, sid, i) ==
     IF ~HasDetector(S) THEN S
-    ELSE [S EXCEPT !.dg = @ \cup {<<bq[1], Cu(S, bq[2]).srv, n, sid>> :
+    ELSE [S EXCEPT !.dg = @ \cup {LET v == DgVertex(bq[1], Cu(S, bq[2]).srv) IN <<v[1], v[2], n, sid>> :
                                      bq \in {b \in Range(Nd(S, n).bq) : b[2] # i /\ HasCu(S, b[2])}}]
 
 \* action_at_detatch_server: all edges in and out of the server disappear
@@ -710,7 +715,7 @@ Block(S, n, i, d) ==
         S1 == TrkBlock(SetCu(S0, i, [Cu(S0, i) EXCEPT !.blk = TRUE]), n, d, i)
         S2 == [S1 EXCEPT !.nodes[d].bq = Append(@, <<n, i>>), !.nodes[d].lbq = @ + 1, !.unchecked = TRUE,
                          !.gb = Append(@, <<n, i, d>>)]
-    IN IF IsInfC(S, n) THEN S2 ELSE DgBlock(S2, n, Cu(S2, i).srv, d)
+    IN DgBlock(S2, n, Cu(S2, i).srv, d)
 
 ----------------------------------------------------------------------------
 (* Events at a service node *)
